@@ -264,6 +264,26 @@ def r4_csv(ctx):
     ctx.check('R4.csv', f'{site(jm)} column order', order == want_order, key(jm, 'order'),
               'the metrics are not returned in the order of the CSV columns (OSNR 0.1nm, SNR 0.1nm, SNR bandwidth, min, max, PDL, CD, '
               'PMD penalties, power, bandwidth): a column would show another metric', f'{order}')
+    # the entry a column is read from is the one whose metric-type EQUALS the asked name (several names share a suffix / prefix)
+    rp = repo.func(RQ, 'read_property')
+    want_p = rp.params[1]
+    tests = [n for n in ast.walk(rp.node) if isinstance(n, (ast.Compare, ast.Call)) and
+             any(isinstance(c, ast.Constant) and c.value == 'metric-type' for c in ast.walk(n)) and
+             any(isinstance(c, ast.Name) and c.id == want_p for c in ast.walk(n))]
+    tests = [t for t in tests if not any(t is not o and any(x is o for x in ast.walk(t)) for o in tests)]      # innermost
+    keyed = [n for n in ast.walk(rp.node) if isinstance(n, ast.DictComp) and 'metric-type' in ast.unparse(n.key)]
+    if not tests and not keyed:
+        raise CannotAnalyse('read_property: no selection of the entry by its metric-type')
+    for t in tests:
+        ok = isinstance(t, ast.Compare) and len(t.ops) == 1 and isinstance(t.ops[0], ast.Eq) and \
+            {ast.unparse(t.left), ast.unparse(t.comparators[0])} >= {want_p} and \
+            any(isinstance(x, ast.Subscript) and isinstance(x.slice, ast.Constant) and x.slice.value == 'metric-type' for x in (t.left, t.comparators[0]))
+        ctx.check('R4.csv', f'{site(rp, t)} metric selection', ok, key(rp, 'select'),
+                  f"read_property selects the entry with `{ast.unparse(t)[:100]}` instead of metric-type == {want_p}: metric names share "
+                  'suffixes (SNR-0.1nm / OSNR-0.1nm, SNR-bandwidth / OSNR-bandwidth), so a response listing them in another order would '
+                  'be exported with the wrong figure in a column')
+    acc = [n for n in ast.walk(rp.node) if isinstance(n, ast.Subscript) and isinstance(n.slice, ast.Constant) and n.slice.value == 'accumulative-value']
+    ctx.check('R4.csv', f'{site(rp)} value read', len(acc) >= 1, key(rp, 'value'), "read_property does not return the entry's accumulative-value")
     jc = repo.func(RQ, 'jsontocsv')
     defs = local_defs(jc.node)
     from ..pattern import find, mstmt, mexpr
